@@ -28,10 +28,10 @@ def deck(m):
     if has("FAULTS"):
         L += ["FAULTDIM", " 4 /"]
     if has("MSW"):
-        L += ["WSEGDIMS", " 2 10 4 /"]
+        L += ["WSEGDIMS", " 2 10 5 /"]
     if has("VFP"):
         L += ["VFPPDIMS", " 5 5 5 5 5 2 /"]
-    L += ["WELLDIMS", " 8 8 4 8 /", "UDQDIMS", " 10 10 4 10 10 4 4 4 10 /", "ACTDIMS", " 10 40 80 10 /", "START", " 1 'JAN' 2020 /",
+    L += ["WELLDIMS", " 8 12 4 8 /", "UDQDIMS", " 10 10 4 10 10 4 4 4 10 /", "ACTDIMS", " 10 40 80 10 /", "START", " 1 'JAN' 2020 /",
           "GRID", "DX", " 18*100 /", "DY", " 18*100 /", "DZ", " 18*10 /", "TOPS", " 9*2000 /", "PORO", " 18*0.2 /",
           "PERMX", " 18*100 /", "PERMY", " 18*100 /", "PERMZ", " 18*10 /"]
     if has("FAULTS"):
@@ -101,7 +101,15 @@ def deck(m):
         g = "G2" if has("GROUPS") else "G1"
         L += ["WELSPECS", " 'P1' '%s' 1 1 1* OIL /" % g, " 'I1' '%s' 3 3 1* WATER /" % g, "/",
               "COMPDAT", " 'P1' 1 1 1 2 OPEN 1* 1* 0.2 /", " 'I1' 3 3 1 2 OPEN 1* 1* 0.2 /", "/"]
-        if has("MSW"):
+        if has("MSWBR"):
+            L += ["COMPDAT", " 'P1' 2 1 2 2 OPEN 1* 1* 0.2 /", " 'P1' 3 1 2 2 OPEN 1* 1* 0.2 /", " 'P1' 1 2 1 2 OPEN 1* 1* 0.2 /", "/"]
+        if has("MSWBR"):
+            L += ["WELSEGS", " 'P1' 2000 2000 1.0e-5 ABS HFA HO /", " 2 2 1 1 2005 2005 0.3 0.0001 /", " 3 3 1 2 2010 2010 0.3 0.0001 /",
+                  " 4 4 2 2 2110 2007 0.2 0.0001 /", " 5 5 2 4 2210 2008 0.2 0.0001 /", " 6 6 1 3 2015 2015 0.3 0.0001 /",
+                  " 7 7 1 6 2020 2020 0.3 0.0001 /", "/",
+                  "COMPSEGS", " 'P1' /", " 1 1 1 1 2000 2005 /", " 1 1 2 1 2005 2010 /", " 1 2 1 1 2010 2015 /", " 1 2 2 1 2015 2020 /",
+                  " 2 1 2 2 2010 2110 /", " 3 1 2 2 2110 2210 /", "/"]
+        elif has("MSW"):
             L += ["WELSEGS", " 'P1' 2000 0 1* INC HF- /", " 2 2 1 1 5 5 0.2 0.0001 /", " 3 3 1 2 5 5 0.2 0.0001 /", "/",
                   "COMPSEGS", " 'P1' /", " 1 1 1 1 0 5 /", " 1 1 2 1 5 10 /", "/"]
         L += ["WCONPROD", " 'P1' OPEN ORAT 100 4* 50 %s /" % ("1*" if not has("VFP") else "1* 1"), "/",
@@ -114,8 +122,8 @@ def deck(m):
             L += ["UDQ", " ASSIGN FU1 1.5 /", " DEFINE WU2 WOPR * 2 /", " UNITS WU2 'SM3/DAY' /", "/"]
         if has("ACTIONX"):
             L += ["ACTIONX", " 'A1' 3 /", " WOPR 'P1' < 50 /", "/", "WELOPEN", " 'P1' SHUT /", "/", "ENDACTIO"]
-    L += ["TSTEP", " 10 20 /"]
+    L += ["DATES", " 11 'JAN' 2020 /", " 31 'JAN' 2020 /", "/"]
     if has("WELLS"):
-        L += ["WELTARG", " 'P1' ORAT 80 /", "/", "TSTEP", " 30 /"]
+        L += ["WELTARG", " 'P1' ORAT 80 /", "/", "DATES", " 1 'MAR' 2020 /", "/"]
     L.append("END")
     return "\n".join(L) + "\n"
